@@ -11,6 +11,7 @@ def plan(tier, seed):
     jobs = [ch("C06", F, "h_to_pandas_plain", t, fun), ch("C06", F, "h_count_len", t, fun),
             ch("C06", F, "h_head", t, fun), ch("C06", F, "h_head_small", t, fun), ch("C06", F, "h_repeat_reads_filelike", t, fun),
             ch("C06", F, "h_iter_row_groups", t, ["api.ParquetFile.iter_row_groups"]),
+            ch("C06", F, "h_iter_row_groups_options", t, ["api.ParquetFile.iter_row_groups (options handed on)"]),
             ch("C06", F, "h_slice_count", t, ["api.ParquetFile.__getitem__", "api.ParquetFile.count",
                                               "api.ParquetFile.info", "api.ParquetFile.__setstate__"]),
             ch("C06", F, "h_slice_state", t, ["api.ParquetFile.__getitem__", "api.ParquetFile.__setstate__",
